@@ -323,7 +323,8 @@ class MutableFileNode:
         return self.get_readable_version()
 
 
-    def get_readable_version(self, servermap=None, version=None):
+    def get_readable_version(self, servermap=None, version=None,
+                             mode=MODE_READ):
         """
         I return a Deferred that fires with an MutableFileVersion for my
         version argument, if there is a recoverable file of that version
@@ -336,8 +337,11 @@ class MutableFileNode:
 
         If no version is provided, then I return a MutableFileVersion
         representing the best recoverable version of the file.
+
+        mode is the mode of the servermap update (MODE_READ unless the
+        caller wants a more thorough survey).
         """
-        d = self._get_version_from_servermap(MODE_READ, servermap, version)
+        d = self._get_version_from_servermap(mode, servermap, version)
         def _build_version(servermap_and_their_version):
             (servermap, their_version) = servermap_and_their_version
             assert their_version in servermap.recoverable_versions()
@@ -431,7 +435,13 @@ class MutableFileNode:
         def _maybe_retry(failure):
             failure.trap(NotEnoughSharesError)
 
-            d = self.get_best_mutable_version()
+            if self.is_readonly():
+                # get_best_mutable_version() would merely repeat the
+                # MODE_READ survey for a read-only node, so ask every
+                # server instead.
+                d = self.get_readable_version(mode=MODE_CHECK)
+            else:
+                d = self.get_best_mutable_version()
             d.addCallback(self._record_size)
             d.addCallback(lambda version: version.download_to_data())
             return d
